@@ -23,7 +23,7 @@ WORK = os.path.join(ROOT, "work")
 EVID = os.path.join(ROOT, "evidence")
 ALLOWED_AXIOMS = {"propext", "Classical.choice", "Quot.sound"}
 # generators whose scenarios are independent are run as parallel shards (VERIF_SHARD=i/n) and merged
-SHARDED = {"C01": 8, "C02": 8, "C03": 8, "C04": 10, "C05": 8, "C06": 8, "C07": 8, "C08": 8, "C09": 8, "C10": 8, "C11": 12, "C12": 8, "C16": 8, "C19": 8}
+SHARDED = {"C01": 8, "C02": 8, "C03": 8, "C04": 10, "C05": 8, "C06": 8, "C07": 8, "C08": 8, "C09": 8, "C10": 8, "C11": 12, "C12": 8, "C16": 8, "C19": 3}
 ENV = dict(os.environ, CARGO_NET_OFFLINE="true")
 
 
@@ -240,8 +240,17 @@ def main():
     gen, judge = har["gen"], har["judge"]
     found_known = []
     if gen is not None:
+        def known_key(sig):
+            if sig in known_sigs:
+                return sig
+            for k in known_sigs:
+                if k.endswith("*") and sig.startswith(k[:-1]):
+                    return k
+            return None
         for v in gen["violations"]:
-            if v["signature"] in known_sigs:
+            kk = known_key(v["signature"])
+            if kk is not None:
+                v = dict(v, known_key=kk)
                 found_known.append(v)
             else:
                 violations.append((v["signature"], v["what"], v["replay"], False))
@@ -255,8 +264,13 @@ def main():
             violations.append(("driver-bad-op", "%d request lines were not understood by the model driver" % judge["bad_ops"], {}, True))
 
     lines = []
+    seen_known = set()
     for k in found_known:
-        lines.append("KNOWN-FINDING: property=%s %s [%s] e.g. %s" % (prop, known_sigs[k["signature"]]["what"], k["signature"], k["what"][:200]))
+        kk = k.get("known_key", k["signature"])
+        if kk in seen_known:
+            continue
+        seen_known.add(kk)
+        lines.append("KNOWN-FINDING: property=%s %s [%s] e.g. %s" % (prop, known_sigs[kk]["what"], k["signature"], k["what"][:200]))
     rc = 0
     for (sig, what, rep, no_input) in violations:
         rc = 1
